@@ -3,6 +3,9 @@ package main
 // Verifying one function: entry state, contract, SMT emission, discharge.
 
 import (
+	"os/exec"
+	"context"
+	"bytes"
 	"golang.org/x/tools/go/ssa/ssautil"
 	"fmt"
 	"go/types"
@@ -428,6 +431,10 @@ func discharge(res *FuncResult, opts VerifyOpts, sem chan struct{}) {
 			obls[0].Result = &r
 			return
 		}
+		if os.Getenv("GOVC_KEEPALL") != "" {
+			os.MkdirAll(filepath.Join(verifRoot(), "out", "failed"), 0o755)
+			os.WriteFile(filepath.Join(verifRoot(), "out", "failed", sanitize(x.key)+".batch.smt2"), []byte(x.smtFor(obls, 0)), 0o644)
+		}
 		r := runT(obls, 3)
 		if r.Status == "unsat" {
 			for _, o := range obls {
@@ -454,7 +461,17 @@ func discharge(res *FuncResult, opts VerifyOpts, sem chan struct{}) {
 		}
 	}
 	wg.Add(1)
-	go solve(qf)
+	go func() {
+		// quantifier-free goals: one incremental script per function. Each goal is checked under exactly the
+		// assertions made before it (assert prefix, then push / check-sat / pop), by two solvers side by side;
+		// what neither decides goes to the portfolio on its own.
+		rest := x.incrementalQF(qf, sem)
+		for i := range rest {
+			wg.Add(1)
+			go solve(rest[i : i+1])
+		}
+		wg.Done()
+	}()
 	// cover obligations: must be satisfiable
 	for _, o := range res.Obls {
 		if o.Kind != "cover" {
@@ -490,7 +507,7 @@ func discharge(res *FuncResult, opts VerifyOpts, sem chan struct{}) {
 	res.Seconds = time.Since(t0).Seconds()
 	if opts.Keep {
 		for _, o := range res.Obls {
-			if o.Result != nil && !obligationOK(o) {
+			if o.Result != nil && (!obligationOK(o) || os.Getenv("GOVC_KEEPALL") != "") {
 				dir := filepath.Join(verifRoot(), "out", "failed")
 				os.MkdirAll(dir, 0o755)
 				os.WriteFile(filepath.Join(dir, sanitize(o.Name)+".smt2"), []byte(x.smtFor([]*Obligation{o}, 0)), 0o644)
@@ -604,3 +621,109 @@ func (x *Exec) globalInvStores(pk *types.Package, c *Clause) string {
 }
 
 var scanCache = map[string]string{}
+
+
+// incrementalQF checks the given obligations (in creation order) with one incremental solver run each for
+// z3 4.8.12 and z3 5.1.0 (mbqi off) and returns those that neither refuted.
+func (x *Exec) incrementalQF(obls []*Obligation, sem chan struct{}) []*Obligation {
+	if len(obls) == 0 {
+		return nil
+	}
+	var b strings.Builder
+	b.WriteString(strings.Replace(prelude, "(set-logic ALL)\n", "", 1))
+	for _, d := range x.decls {
+		b.WriteString(d)
+		b.WriteByte('\n')
+	}
+	if x.lemmaStart > 0 {
+		for _, a := range x.asserts[x.lemmaStart:] {
+			b.WriteString(a)
+			b.WriteByte('\n')
+		}
+	}
+	limit := len(x.asserts)
+	if x.lemmaStart > 0 {
+		limit = x.lemmaStart
+	}
+	cur := 0
+	for _, o := range obls {
+		n := o.NAssert
+		if n > limit {
+			n = limit
+		}
+		if n < cur {
+			// not in creation order: fall back
+			return obls
+		}
+		for _, a := range x.asserts[cur:n] {
+			b.WriteString(a)
+			b.WriteByte('\n')
+		}
+		cur = n
+		b.WriteString("(push 1)\n(assert " + And(o.PC, Not(o.Goal)).S + ")\n(check-sat)\n(pop 1)\n")
+	}
+	f, err := os.CreateTemp(scratchDir(), "inc*.smt2")
+	if err != nil {
+		return obls
+	}
+	f.WriteString(b.String())
+	f.Close()
+	defer os.Remove(f.Name())
+	type run struct {
+		name string
+		argv []string
+	}
+	total := 20 + len(obls)/4
+	runs := []run{
+		{"z3-5.1.0/inc", []string{"z3-new", "-smt2", "-t:2000", fmt.Sprintf("-T:%d", total), "smt.mbqi=false", "smt.auto_config=false", f.Name()}},
+		{"z3-4.8.12/inc", []string{"/usr/bin/z3", "-smt2", "-t:2000", fmt.Sprintf("-T:%d", total), "smt.mbqi=false", "smt.auto_config=false", f.Name()}},
+	}
+	results := make([][]string, len(runs))
+	secs := make([]float64, len(runs))
+	var wg sync.WaitGroup
+	for i, r := range runs {
+		wg.Add(1)
+		go func(i int, r run) {
+			defer wg.Done()
+			sem <- struct{}{}
+			defer func() { <-sem }()
+			t0 := time.Now()
+			ctx, cancel := context.WithTimeout(context.Background(), time.Duration(total+5)*time.Second)
+			defer cancel()
+			cmd := exec.CommandContext(ctx, r.argv[0], r.argv[1:]...)
+			var out bytes.Buffer
+			cmd.Stdout = &out
+			cmd.Run()
+			secs[i] = time.Since(t0).Seconds()
+			for _, ln := range strings.Split(out.String(), "\n") {
+				ln = strings.TrimSpace(ln)
+				switch ln {
+				case "sat", "unsat", "unknown", "timeout":
+					results[i] = append(results[i], ln)
+				default:
+					if strings.HasPrefix(ln, "(error") {
+						// an error desynchronises the answers: discard this run
+						results[i] = nil
+						return
+					}
+				}
+			}
+		}(i, r)
+	}
+	wg.Wait()
+	var rest []*Obligation
+	for k, o := range obls {
+		done := false
+		for i := range runs {
+			if k < len(results[i]) && results[i][k] == "unsat" {
+				o.Result = &SolverResult{Status: "unsat", Solver: runs[i].name, Seconds: secs[i] / float64(len(obls))}
+				done = true
+				break
+			}
+		}
+		if !done {
+			rest = append(rest, o)
+		}
+	}
+	return rest
+}
